@@ -209,6 +209,17 @@ long f@N@ (long %(L)s_n) {
 }
 """ % dict(L='identifier_' + 'x' * 80))
 
+# predefined macros / number and string formatting paths of the preprocessor, wide and escaped literals
+C_POOL.append("""#define XSTR(x) #x
+#define STR(x) XSTR (x)
+static const char *where@N@ = __FILE__ ":" STR (__LINE__);
+long f@N@ (long n) {
+  const char *d = __DATE__, *t = __TIME__, *fn = __func__;
+  long line = __LINE__, ver = __STDC_VERSION__;
+  double x = 1.5e3 + 0x1p4 + 017 + 'a' + '\\n' + sizeof (L"wide") + n;
+  return line + (ver > 0) + d[0] * 0 + t[0] * 0 + fn[0] + where@N@[0] * 0 + (long) x + __LINE__;
+}
+""")
 
 def stress_module(rng, name, nfunc):
     """MIR text: nfunc small functions of varied length, each calling a host function through one of several
